@@ -9,7 +9,6 @@ import (
 	"sort"
 	"strings"
 	"sync/atomic"
-	"time"
 
 	"github.com/facebookincubator/dns/dnsrocks/db"
 
@@ -88,14 +87,31 @@ type cfail struct {
 	qn               uint8
 }
 
+// cfile is one data file: a set of declarations (bit i = declaration i) and
+// the stores it is compiled to.
+type cfile struct {
+	mask uint32
+	rdb  bool
+}
+
 type levelC struct {
-	nDecls, k, nFiles, nNames       int
-	skipped                         int64
-	dbs, evals, nontrivial, failing int64
-	decls                           []mdecl
-	files                           [][]int
-	fails                           [][]cfail
-	gots                            []map[cfail]string
+	nDecls, nFiles, nRdbFiles, nNames int
+	fileRule                          string
+	dbs, evals, nontrivial, failing   int64
+	decls                             []mdecl
+	files                             []cfile
+	fails                             [][]cfail
+	gots                              []map[cfail]string
+}
+
+func (c *levelC) idsOf(mask uint32) []int {
+	var ids []int
+	for i := range c.decls {
+		if mask&(1<<uint(i)) != 0 {
+			ids = append(ids, i)
+		}
+	}
+	return ids
 }
 
 var storesC = []storeCfg{{"cdb", dnsfix.CDB, false}, {"rdb-v1", dnsfix.RDBv1, false}, {"rdb-v2", dnsfix.RDBv2, false}}
@@ -128,13 +144,16 @@ var clientC = client{fam: 4, addr: u128{0, 10<<24 | 1<<16 | 1<<8 | 1}, plen: 32,
 var clientCecs = client{fam: 4, addr: u128{0, 10<<24 | 1<<16 | 1<<8}, plen: 24}
 
 func (c *levelC) runFile(dir string, fi int) {
-	ids := c.files[fi]
+	ids := c.idsOf(c.files[fi].mask)
 	var decls []mdecl
 	for _, i := range ids {
 		decls = append(decls, c.decls[i])
 	}
 	text := c.fileText(ids)
 	for si, st := range storesC {
+		if st.backend != dnsfix.CDB && !c.files[fi].rdb {
+			continue
+		}
 		path, err := dnsfix.Compile(dir, st.backend, []byte(text))
 		if err != nil {
 			vlib.Infra("level C: compile %s of %q failed: %v", st.name, text, err)
@@ -222,8 +241,16 @@ func lookupMap(d *db.DB, kind int, q []byte, cl *client) (got, desc string, isEr
 	return string(loc.MapID[:]), fmt.Sprintf("map %q", loc.MapID[:]), false, false
 }
 
-func runLevelC(r *vlib.Run, dir string, deadline time.Time) *levelC {
-	c := &levelC{k: 3, nNames: len(queryNames)}
+func popcount(m uint32) int {
+	n := 0
+	for ; m != 0; m &= m - 1 {
+		n++
+	}
+	return n
+}
+
+func runLevelC(r *vlib.Run, dir string) *levelC {
+	c := &levelC{nNames: len(queryNames)}
 	clientC.ip16 = wireECSAddress(4, clientC.addr, 32)
 	clientCecs.ip16 = wireECSAddress(4, clientCecs.addr, 24)
 	for o, owner := range mapOwners {
@@ -233,49 +260,77 @@ func runLevelC(r *vlib.Run, dir string, deadline time.Time) *levelC {
 	}
 	c.nDecls = len(c.decls)
 	n := len(c.decls)
-	c.files = append(c.files, nil)
-	for i := 0; i < n; i++ {
-		c.files = append(c.files, []int{i})
-	}
-	for i := 0; i < n; i++ {
-		for j := i + 1; j < n; j++ {
-			c.files = append(c.files, []int{i, j})
+	// CDB: every set of <=3 declarations. RocksDB: quick - for every set of <=2
+	// owners the file that declares both kinds (M and 8) for each of them;
+	// thorough - every set of <=2 declarations plus, for every set of <=3 owners,
+	// the file declaring both kinds. (Files of the RocksDB list go to CDB too.)
+	c.fileRule = "CDB: all sets of <=3 of the 16 declarations, plus the RocksDB files. RocksDB v1/v2, quick: for every set of <=2 of the 8 owners the file declaring both map kinds for each owner (37 files); thorough: all sets of <=2 declarations, plus for every set of <=3 owners the file declaring both kinds"
+	rdbOwners, rdbDecls := r.Pick(2, 3), r.Pick(-1, 2)
+	sel := map[uint32]bool{} // mask -> rdb
+	for m := uint32(0); m < 1<<uint(n); m++ {
+		pc := popcount(m)
+		if pc <= 3 {
+			sel[m] = sel[m] || pc <= rdbDecls
 		}
 	}
-	for i := 0; i < n; i++ {
-		for j := i + 1; j < n; j++ {
-			for k := j + 1; k < n; k++ {
-				c.files = append(c.files, []int{i, j, k})
+	for om := uint32(0); om < 1<<uint(len(mapOwners)); om++ {
+		if popcount(om) > rdbOwners {
+			continue
+		}
+		var m uint32
+		for o := range mapOwners {
+			if om&(1<<uint(o)) != 0 {
+				m |= 3 << uint(2*o) // declarations 2o (M) and 2o+1 (8)
 			}
+		}
+		sel[m] = true
+	}
+	var masks []uint32
+	for m := range sel {
+		masks = append(masks, m)
+	}
+	sort.Slice(masks, func(i, j int) bool {
+		if a, b := popcount(masks[i]), popcount(masks[j]); a != b {
+			return a < b
+		}
+		return masks[i] < masks[j]
+	})
+	for _, m := range masks {
+		c.files = append(c.files, cfile{m, sel[m]})
+		if sel[m] {
+			c.nRdbFiles++
 		}
 	}
 	c.nFiles = len(c.files)
 	c.fails = make([][]cfail, len(c.files))
 	c.gots = make([]map[cfail]string, len(c.files))
-	vlib.ParallelFor(len(c.files), func(i int) {
-		if time.Now().After(deadline) {
-			atomic.AddInt64(&c.skipped, 1)
-			return
+	var order []int
+	for i := range c.files {
+		if c.files[i].rdb {
+			order = append(order, i)
 		}
-		c.runFile(dir, i)
-	})
-	if c.skipped > 0 {
-		r.Exhaustive = false
-		r.Note("level C: %d of %d files skipped by the wall-clock cap", c.skipped, len(c.files))
 	}
+	for i := range c.files {
+		if !c.files[i].rdb {
+			order = append(order, i)
+		}
+	}
+	vlib.ParallelFor(len(order), func(i int) { c.runFile(dir, order[i]) })
 
-	// minimal cases only
+	// minimal cases only: no enumerated proper sub-file fails the same way on the same store
 	type fk struct {
 		set uint32
 		f   cfail
 	}
 	all := map[fk]bool{}
-	for fi, ids := range c.files {
+	for fi := range c.files {
 		for _, f := range c.fails[fi] {
-			all[fk{setKey(ids), f}] = true
+			all[fk{c.files[fi].mask, f}] = true
 		}
 	}
-	for fi, ids := range c.files {
+	for fi := range c.files {
+		mask := c.files[fi].mask
+		ids := c.idsOf(mask)
 		var decls []mdecl
 		for _, i := range ids {
 			decls = append(decls, c.decls[i])
@@ -296,15 +351,12 @@ func runLevelC(r *vlib.Run, dir string, deadline time.Time) *levelC {
 		})
 		for _, f := range fs {
 			minimal := true
-			for m := 0; m < (1<<uint(len(ids)))-1 && minimal; m++ {
-				var sub []int
-				for i := range ids {
-					if m&(1<<uint(i)) != 0 {
-						sub = append(sub, ids[i])
-					}
-				}
-				if all[fk{setKey(sub), f}] {
+			for sub := (mask - 1) & mask; minimal; sub = (sub - 1) & mask {
+				if sub != mask && all[fk{sub, f}] {
 					minimal = false
+				}
+				if sub == 0 {
+					break
 				}
 			}
 			if !minimal {
@@ -329,7 +381,7 @@ func runLevelC(r *vlib.Run, dir string, deadline time.Time) *levelC {
 		}
 	}
 	for _, fi := range []int{1, len(c.files) / 2, len(c.files) - 1} {
-		r.Sample(map[string]interface{}{"level": "C", "data": c.fileText(c.files[fi]), "failing_lookups": len(c.fails[fi])})
+		r.Sample(map[string]interface{}{"level": "C", "data": c.fileText(c.idsOf(c.files[fi].mask)), "rocksdb": c.files[fi].rdb, "failing_lookups": len(c.fails[fi])})
 	}
 	return c
 }
